@@ -7,16 +7,16 @@ import SqLemmas.InvMachine
 import SqLemmas.ParseNames
 namespace Sq.Inv
 
-variable {Pc : List Op → Op → Nat → Prop} {Pb : String → Prop} {Pq : String → Prop}
+variable {Pc : List Op → Op → Nat → Prop} {Pb : String → Prop} {Pq : String → Prop} {Pr : Nat → Prop}
 variable {Po : Op → Prop} {Pn : Name → Prop} {Psh : Prop}
-local notation "NP" => NPg Pc Pb Pq
-local notation "PD" => PDg Pc Pb Pq
+local notation "NP" => NPg Pc Pb Pq Pr
+local notation "PD" => PDg Pc Pb Pq Pr
 local notation "FrameP" => FramePg Po Pn Psh
 local notation "CtlP" => CtlPg Po
-local notation "CoreNP" => CoreNPg Pc Pb Pq Po Pn Psh
-local notation "CorePD" => CorePDg Pc Pb Pq Po Pn Psh
-local notation "WorldNP" => WorldNPg Pc Pb Pq
-local notation "WorldPD" => WorldPDg Pc Pb Pq
+local notation "CoreNP" => CoreNPg Pc Pb Pq Pr Po Pn Psh
+local notation "CorePD" => CorePDg Pc Pb Pq Pr Po Pn Psh
+local notation "WorldNP" => WorldNPg Pc Pb Pq Pr
+local notation "WorldPD" => WorldPDg Pc Pb Pq Pr
 
 theorem frameP_pd (hq : ∀ q, Pq q) {fr : Frame} (h : FrameP NP fr) : FrameP PD fr := by
   cases fr with
@@ -43,9 +43,9 @@ theorem frameP_pd (hq : ∀ q, Pq q) {fr : Frame} (h : FrameP NP fr) : FrameP PD
   | _ => trivial
 
 theorem world_pd (hq : ∀ q, Pq q) {w : World} (h : WorldNP w) : WorldPD w := by
-  refine ⟨?_, ?_, ?_⟩
+  refine ⟨⟨?_, h.heap.2⟩, ?_, ?_⟩
   · intro a o hg
-    have := h.heap a o hg
+    have := h.heap.1 a o hg
     cases o with
     | list xs => exact fun v hv => np_pd hq (this v hv)
     | dict kvs => exact fun kv hkv => ⟨np_pd hq (this kv hkv).1, np_pd hq (this kv hkv).2⟩
@@ -88,14 +88,14 @@ theorem inv_run (hok : OpsOK Pc Pb Po Pn Psh) (hq : ∀ q, Pq q) (c : Cfg) (h0 :
 /-- the invariant is monotone in its three predicates -/
 theorem NPg.mono {Pc' : List Op → Op → Nat → Prop} {Pb' Pq' : String → Prop}
     (hc : ∀ ps b vm, Pc ps b vm → Pc' ps b vm) (hb : ∀ n, Pb n → Pb' n) (hq : ∀ q, Pq q → Pq' q) :
-    ∀ {v : Val}, NPg Pc Pb Pq v → NPg Pc' Pb' Pq' v
+    ∀ {v : Val}, NPg Pc Pb Pq Pr v → NPg Pc' Pb' Pq' Pr v
   | _, .none => .none
   | _, .bool => .bool
   | _, .dec => .dec
   | _, .int => .int
   | _, .str => .str
   | _, .slice => .slice
-  | _, .ref => .ref
+  | _, .ref h => .ref h
   | _, .builtin h => .builtin (hb _ h)
   | _, .closure h => .closure (hc _ _ _ h)
   | _, .host => .host
@@ -104,10 +104,10 @@ theorem NPg.mono {Pc' : List Op → Op → Nat → Prop} {Pb' Pq' : String → P
 
 theorem WorldNPg.mono {Pc' : List Op → Op → Nat → Prop} {Pb' Pq' : String → Prop}
     (hc : ∀ ps b vm, Pc ps b vm → Pc' ps b vm) (hb : ∀ n, Pb n → Pb' n) (hq : ∀ q, Pq q → Pq' q) {w : World}
-    (h : WorldNPg Pc Pb Pq w) : WorldNPg Pc' Pb' Pq' w := by
-  refine ⟨?_, ?_, ?_⟩
+    (h : WorldNPg Pc Pb Pq Pr w) : WorldNPg Pc' Pb' Pq' Pr w := by
+  refine ⟨⟨?_, h.heap.2⟩, ?_, ?_⟩
   · intro a o hg
-    have := h.heap a o hg
+    have := h.heap.1 a o hg
     cases o with
     | list xs => exact fun v hv => (this v hv).mono hc hb hq
     | dict kvs => exact fun kv hkv => ⟨(this kv hkv).1.mono hc hb hq, (this kv hkv).2.mono hc hb hq⟩
@@ -159,7 +159,7 @@ theorem opsOK_names (S : Name → Prop) :
 /-- the invariant instantiated: every closure anywhere in the configuration has a body mentioning only names in `S`,
     every pending node mentions only names in `S`, every pending call / compound-assignment name is in `S` -/
 abbrev NamesInv (S : Name → Prop) (c : Core) : Prop :=
-  CoreNPg (fun _ body _ => MentionsIn S body) (fun _ => True) (fun _ => True) (MentionsIn S) S True c
+  CoreNPg (fun _ body _ => MentionsIn S body) (fun _ => True) (fun _ => True) (fun _ => True) (MentionsIn S) S True c
 
 theorem lookup_in (S : Name → Prop) {c : Core} (h : NamesInv S c) {n : Name} (hl : lookupOf c = some n) : S n := by
   unfold lookupOf at hl
@@ -192,10 +192,10 @@ theorem run_lookups_in (S : Name → Prop) (c : Cfg) (h0 : NamesInv S c.core) (i
     closures the host's world already holds mention only names in `S` -/
 theorem init_names_inv (S : Name → Prop) (w : World) (bs : List Nat) (namesAddr budget : Nat) (tree : Op)
     (astNames : List (Name × Op))
-    (hw : WorldNPg (fun _ body _ => MentionsIn S body) (fun _ => True) (fun _ => True) w)
+    (hw : WorldNPg (fun _ body _ => MentionsIn S body) (fun _ => True) (fun _ => True) (fun _ => True) w)
     (ht : MentionsIn S tree) (ha : ∀ p, p ∈ astNames → MentionsIn S p.2) :
     NamesInv S (initCfg w bs namesAddr budget tree astNames).core := by
-  have hw' : WorldNPg (fun _ body _ => MentionsIn S body) (fun _ => True) (fun _ => True)
+  have hw' : WorldNPg (fun _ body _ => MentionsIn S body) (fun _ => True) (fun _ => True) (fun _ => True)
       { w with vms := w.vms ++ [{ scopes := [namesAddr], ops := 0 }] } := ⟨hw.heap, hw.rx, hw.probes⟩
   cases astNames with
   | nil => exact ⟨ht, fun fr hfr => (by cases hfr), hw'⟩
